@@ -1310,7 +1310,7 @@ class Interp:
                 if isinstance(el, ast.Starred):
                     self.assign(el.value, Term.of(Atom('starred', v, i)), fr, st, quiet=quiet)
                 else:
-                    self.assign(el, T.mk_sub(v, Term.num(i)), fr, st, quiet=quiet)
+                    self.assign(el, self.subscript(v, Term.num(i)), fr, st, quiet=quiet)
         elif isinstance(tgt, ast.Attribute):
             base = self.ev(tgt.value, fr)
             em = getattr(self, 'expansion_mode', None)
